@@ -246,6 +246,37 @@ theorem hlle_all_product_cols_written (d c : Nat) (h1 : 1 + d ≤ c) (h2 : c < h
 
 example : 1 + 3 ≤ 9 ∧ 9 < hlleCols 3 := by decide
 
+/-! ### which products are formed (pins `srcA`, `srcB`, `rightColsArg`, `tangentBlockCols`, `tangentRightCols`) -/
+
+/-- `allPairs d` (hand-written, `Proofs/LocallyLinearHlle.lean`) is exactly the set of pairs `1 ≤ a ≤ b ≤ d` … -/
+theorem hlle_allPairs_mem (d : Nat) (a b : Int) : (a, b) ∈ allPairs d ↔ 1 ≤ a ∧ a ≤ b ∧ b ≤ (d : Int) :=
+  mem_allPairs d a b
+
+/-- … each listed once -/
+theorem hlle_allPairs_nodup (d : Nat) : (allPairs d).Nodup := allPairs_nodup d
+
+/-- **The write list is the expected one, in program order**: the `c`-th pair `(a, b)` of `allPairs d` is written to
+    column `1 + d + c` as `Yi.col(a) ∘ Yi.col(b)` (columns, sources and their pairing all pinned). -/
+theorem hlle_writes_eq_expected : ∀ d, hlleWrites d = expectedWrites d :=
+  hlleWrites_eq_expected (fun _ _ _ => rfl) (fun _ _ _ => rfl) (fun _ _ _ => rfl)
+
+/-- **Pair coverage**: every product `u_a ∘ u_b` with `1 ≤ a ≤ b ≤ d` is formed exactly once (a mutation such as
+    `Yi.col(j+1).cwiseProduct(Yi.col(p+1))` breaks this theorem). -/
+theorem hlle_sources_cover_pairs : ∀ d, ((hlleWrites d).map (·.2)).Perm (allPairs d) := by
+  intro d
+  rw [hlleWrites_pairs (fun _ _ _ => rfl) (fun _ _ _ => rfl) (fun _ _ _ => rfl)]
+
+example : allPairs 3 = [(1, 1), (1, 2), (1, 3), (2, 2), (2, 3), (3, 3)] := by decide
+
+/-- `Yi.rightCols(dp)`: the Hessian estimator takes exactly the `dp` product columns -/
+theorem hlle_rightCols_eq : ∀ d : Int, Gen.HlleIndex.rightColsArg d (Gen.HlleIndex.dpExpr d) = Gen.HlleIndex.dpExpr d :=
+  fun _ => rfl
+
+/-- `Yi.block(0, 1, k, d) = eigenvectors().rightCols(d)`: the tangent block has `d` columns on both sides -/
+theorem hlle_tangent_block_eq : ∀ d : Int,
+    Gen.HlleIndex.tangentBlockCols d = d ∧ Gen.HlleIndex.tangentRightCols d = d :=
+  fun _ => ⟨rfl, rfl⟩
+
 section HlleOk
 variable {K' : Type} [Add K'] [Sub K'] [Mul K'] [Div K'] [Zero K'] [One K'] [LT K'] [DecidableLT K']
 
